@@ -90,7 +90,7 @@ static struct barg bodies[5] = {
 	{ "b-4k", NULL, 4096, 0 },
 	{ "b-70k", NULL, 70000, 0 },
 };
-#define NBODIES (mc_param("bigbodies", 0) ? 5 : 3)
+#define NBODIES (mc_param("bigbodies", 0) ? 5 : 3)     /* bigbodies=1: all five; see BODY() for the index map */
 #define NBENIGN_HSETS 10          /* the first 10 field sets are the benign ones */
 
 /* client */
@@ -123,8 +123,8 @@ static const struct sarg reasons[] = {
 	{ "reason-unvalidated", "a\rb", 1 },
 };
 #define NREASONS ((int)(sizeof reasons / sizeof reasons[0]))
-static const int codes[] = { 200, 404, 500, 204, 304, 299, /* thorough (-P morecodes=1): */ 201, 206, 301, 400, 503, 599 };
-#define NCODES (mc_param("morecodes", 0) ? 12 : 6)
+static const int codes[] = { 200, 404, 500, 204, 304, 299, /* thorough (-P morecodes=1): */ 206, 301, 503 };
+#define NCODES (mc_param("morecodes", 0) ? 9 : 6)
 struct rk { const char *label; const char *bytes; int head, major, minor, keepalive, close; };
 static const struct rk reqkinds[] = {
 	{ "get11", "GET /x HTTP/1.1\r\nHost: h\r\n\r\n", 0, 1, 1, 0, 0 },
@@ -156,10 +156,26 @@ static char pair_label[120];
 /* second (benign) field set appended after the first one: 0 = none (thorough: -P cohdr=1) */
 static const struct hset *choose_co(int hi)
 {
+	/* none, or one of the field sets that meet the automatic fields: Content-Type, Connection: close, Content-Length, Date */
+	static const int cos[5] = { 0, 5, 6, 7, 8 };
 	if (!mc_param("cohdr", 0)) return NULL;
-	int c = mc_choose(NBENIGN_HSETS, 0, "co-headers");
+	int c = cos[mc_choose(5, 0, "co-headers")];
 	if (c == 0 || c == hi) return NULL;
 	return &hsets[c];
+}
+/* everything the library writes: run the loop and read until nothing more arrives (a body larger than the
+ * socket buffer needs several rounds); returns 1 when the writer closed */
+static int capture_all(int fd, struct hc_buf *cap)
+{
+	int eof = 0;
+	for (int round = 0; round < 200; round++) {
+		size_t before = cap->n;
+		hc_run();
+		int e = hc_peer_drain(fd, cap);
+		if (e) { eof = 1; break; }
+		if (cap->n == before) break;
+	}
+	return eof;
 }
 
 static void add_headers1(struct evkeyvalq *q, const struct hset *hs, struct want *w);
@@ -294,8 +310,7 @@ static void run_client(void)
 	add_headers(req->output_headers, hs, co, bo->n, &w);
 	if (bo->n) evbuffer_add(req->output_buffer, bo->p, bo->n);
 	int rc = evhttp_make_request(evcon, req, (enum evhttp_cmd_type)me->type, tg->v);
-	hc_run();
-	hc_peer_drain(sv[1], &cap);
+	capture_all(sv[1], &cap);
 	hc_buf_add(&cap, "", 0);
 	MC_COUNT("client_requests");
 	if (rc != 0) {
@@ -416,8 +431,7 @@ static void run_server(void)
 	plan.style = st; plan.code = code; plan.reason = rs->v; plan.hs = hs; plan.co = co; plan.body = bo;
 	evhttp_get_request(http, sv[0], (struct sockaddr *)&sa, sizeof(sa_family_t), NULL);
 	hc_peer_write(sv[1], rk->bytes, strlen(rk->bytes));
-	hc_run();
-	int eof = hc_peer_drain(sv[1], &cap) != 0;
+	int eof = capture_all(sv[1], &cap);
 	hc_buf_add(&cap, "", 0);
 	MC_COUNT("server_replies");
 	if (plan.calls != 1) mc_fail("harness:handler-calls", "handler ran %d times", plan.calls);
